@@ -1,11 +1,13 @@
 """C15 - physical constants are coherent across unit systems and with the unit table."""
+import ast
 from collections import OrderedDict
 from fractions import Fraction
 
-from .common import And, Case, call, close, payload
-from .names_common import CONST_DEFS, PI, TOL, dimvec, float_q, oracle_var, tables, within
+from .common import And, Case, Or, call, check_names, close, exact_eq, payload
+from .names_common import CONST_DEFS, PI, TOL, dimvec, expected, float_q, oracle_var, tables, within
 
 LEVEL = "other"
+BATCH_REPLAY = True  # every case restores the global state it touches (constants table, registered user systems)
 MANIFEST = dict(
     category="other",
     text=("(b) Bounded symbolic execution of the real add_constants (unyt_quantity, in_base, in_cgs, _check_em_conversion, "
@@ -44,66 +46,343 @@ def si_of(q):
     return payload(q)[0] * q.units.base_value
 
 
+# ------------------------------------------------------------------------------------------------ building blocks
+
+GUISES = ("", "_mks", "_cgs")
+
+
+def build_constants(ctx, reg):
+    """the real add_constants on `reg`, the table value of every constant replaced by a symbol -> (ns, V) or (None, V)"""
+    US = ctx.mods["US"]
+    from unyt._unit_lookup_table import physical_constants as table
+    V = {}
+    sym_table = OrderedDict()
+    for name, (v0, unit, aliases) in table.items():
+        V[name] = ctx.real("v:" + name)
+        sym_table[name] = (V[name], unit, aliases)
+    ns = {}
+    saved = US.physical_constants
+    US.physical_constants = sym_table
+    try:
+        r = call(US.add_constants, ns, reg)
+    finally:
+        US.physical_constants = saved
+    if r[0] == "raise":
+        ctx.require("add_constants runs", False, exc=type(r[1]).__name__, msg=str(r[1])[:200])
+        return None, V
+    return ns, V
+
+
+def check_namespace(ctx, ns, V, reg, cgs_registry, scale_of_unit=None, pre="", observe=True):
+    """every obligation of part (b) for one namespace filled by add_constants.
+    scale_of_unit(unit string) -> the harness' own figure for the SI size of the table unit in this registry (default: the
+    registry's unit object for the table unit, as before)."""
+    unyt = ctx.mods["unyt"]
+    from unyt._unit_lookup_table import physical_constants as table
+    for name, (v0, unit, aliases) in table.items():
+        v = V[name]
+        tu = unyt.Unit(unit, registry=reg)
+        E = oracle_var(ctx, pre + "si:" + name, v * (tu.base_value if scale_of_unit is None else scale_of_unit(unit)))
+        em = str(tu.expr) == "C"
+        for nm in [name] + list(aliases):
+            role = "name" if nm == name else "alias"
+            # X_mks: the table value in the table unit
+            q = ns.get(nm + "_mks")
+            ok = q is not None and And(close(payload(q)[0], v, tol=0), str(q.units) == str(tu), close(si_of(q), E))
+            ctx.require(f"{pre}{name}/{role}/_mks", ok, key=nm + "_mks", got=str(q.units) if q is not None else None)
+            # X_cgs
+            q = ns.get(nm + "_cgs")
+            if name in IRREDUCIBLE_IN_CGS:
+                ctx.require(f"{pre}{name}/{role}/_cgs", q is None, key=nm + "_cgs", why="documented as not representable in CGS")
+            elif q is None:
+                ctx.require(f"{pre}{name}/{role}/_cgs", False, key=nm + "_cgs", why="missing")
+            elif em:
+                ctx.require(f"{pre}{name}/{role}/_cgs", And(close(payload(q)[0], v * EM_CHARGE_FACTOR), str(q.units) == "statC"), key=nm + "_cgs", got=str(q.units))
+            else:
+                ctx.require(f"{pre}{name}/{role}/_cgs", And(close(si_of(q), E), dimvec(q.units.dimensions) == dimvec(tu.dimensions)), key=nm + "_cgs", got=str(q.units))
+            # X in this registry's unit system
+            q = ns.get(nm)
+            if q is None:
+                ctx.require(f"{pre}{name}/{role}/base", False, key=nm, why="missing")
+            elif em and cgs_registry:
+                ctx.require(f"{pre}{name}/{role}/base", And(close(payload(q)[0], v * EM_CHARGE_FACTOR), str(q.units) == "statC"), key=nm, got=str(q.units))
+            else:
+                ctx.require(f"{pre}{name}/{role}/base", And(close(si_of(q), E), dimvec(q.units.dimensions) == dimvec(tu.dimensions)), key=nm, got=str(q.units))
+                if observe:
+                    ctx.observe(f"{pre}{nm}", payload(q)[0])
+    for old, new in (("hmks", "h_mks"), ("hcgs", "h_cgs")):
+        a, b = ns.get(old), ns.get(new)
+        ctx.require(f"{pre}h/legacy/{old}", a is not None and b is not None and And(close(payload(a)[0], payload(b)[0], tol=0), str(a.units) == str(b.units)))
+    expected_keys = set()
+    for name, (v0, unit, aliases) in table.items():
+        for nm in [name] + list(aliases):
+            expected_keys |= {nm, nm + "_mks"} | (set() if name in IRREDUCIBLE_IN_CGS else {nm + "_cgs"})
+    ctx.require(pre + "namespace has exactly the documented names", set(ns) == expected_keys | {"hmks", "hcgs"}, extra=sorted(set(ns) ^ (expected_keys | {"hmks", "hcgs"}))[:8])
+    no_shared_buffers(ctx, ns, pre + "every name has a buffer of its own")
+
+
+def no_shared_buffers(ctx, ns, label):
+    """two different quantity objects of a constants namespace never sit on the same memory (an in-place operation on one name
+    would otherwise change the number under the other name's unit); numpy's own overlap test, no unyt code involved"""
+    import numpy as np
+    items = [(k, v) for k, v in ns.items() if isinstance(v, np.ndarray)]
+    bad = []
+    for i, (ka, a) in enumerate(items):
+        for kb, b in items[i + 1:]:
+            if a is not b and np.shares_memory(a, b):
+                bad.append(f"{ka}~{kb}")
+    ctx.require(label, not bad, count=len(bad), pairs=bad[:6])
+
+
 def make_system_case(sysname):
+    def h(ctx):
+        reg = ctx.mods["UR"].UnitRegistry(unit_system=sysname)
+        ns, V = build_constants(ctx, reg)
+        if ns is None:
+            return
+        check_namespace(ctx, ns, V, reg, sysname == "cgs")
+    return Case(f"C15/system/{sysname}", h, bounds="39 symbolic values, all names x 3 suffixes", budget_s=600, weight=5, max_paths=16)
+
+
+# ------------------------------------------------------------------------------------------------ registry configurations
+# The registry a constants namespace is built for is a configuration axis of its own: the rows of a custom registry may have
+# been given other sizes (UnitRegistry.modify), before or after the registry was first used, and its unit system may be one the
+# user defined on rows of his own. What the constants are must not depend on any of that beyond the size of the unit each is
+# tabulated in: X = v [table unit as this registry defines it], in every guise.
+
+EM_FIXED = {"C", "A"}   # the SI<->Gaussian charge route is a fixed documented factor between the atomic units C and statC
+
+
+def _canon(name):
+    """(prefix factor, table symbol) of an atom spelling, by the independent reader of names_common"""
+    T = tables()
+    if name in T.rows:
+        return (1.0, name)
+    e = expected(name, T)
+    if e is None:
+        raise KeyError(f"unreadable unit atom {name!r}")
+    return e
+
+
+def _names_in(unit_str):
+    return sorted({n.id for n in ast.walk(ast.parse(unit_str, mode="eval")) if isinstance(n, ast.Name)})
+
+
+def own_scale(unit_str, scale_of_symbol):
+    """SI size of a table unit expression ('m**3/kg/s**2') from the sizes of its symbols: the harness' own arithmetic"""
+    def ipow(a, k):
+        out = 1.0
+        for _ in range(abs(k)):
+            out = out * a
+        return out if k >= 0 else 1.0 / out
+
+    def ev(n):
+        if isinstance(n, ast.Expression):
+            return ev(n.body)
+        if isinstance(n, ast.Name):
+            pv, sym = _canon(n.id)
+            s = scale_of_symbol(sym)
+            return s if pv == 1.0 else pv * s
+        if isinstance(n, ast.Constant) and isinstance(n.value, int):
+            return n.value
+        if isinstance(n, ast.UnaryOp) and isinstance(n.op, ast.USub):
+            return -ev(n.operand)
+        if isinstance(n, ast.BinOp) and isinstance(n.op, ast.Mult):
+            return ev(n.left) * ev(n.right)
+        if isinstance(n, ast.BinOp) and isinstance(n.op, ast.Div):
+            return ev(n.left) / ev(n.right)
+        if isinstance(n, ast.BinOp) and isinstance(n.op, ast.Pow):
+            k = ev(n.right)
+            if not isinstance(k, int):
+                raise ValueError(f"non-integer power in table unit {unit_str!r}")
+            return ipow(ev(n.left), k)
+        raise ValueError(f"table unit {unit_str!r}: unexpected syntax")
+    return ev(ast.parse(unit_str, mode="eval"))
+
+
+def edit_symbols(mods, sysname):
+    """the table symbols whose rows are given a new, symbolic size: every symbol that occurs in a unit the system declares or
+    synthesises (its base units and overrides, SI prefix stripped) and every symbol a constant is tabulated in - except the
+    atomic charge/current units of the fixed SI<->Gaussian route, Gaussian units (half-integer dimensions) and offset units."""
+    import sympy
+    from unyt._unit_lookup_table import physical_constants as table
+    T = tables()
+    S = mods["US"].unit_system_registry[sysname]
+    names = set()
+    for v in S.units_map.values():
+        if v is not None:
+            names |= {str(a) for a in sympy.sympify(v).atoms(sympy.Symbol)}
+    for name, (v0, unit, aliases) in table.items():
+        names |= set(_names_in(unit))
+    out = []
+    for sym in sorted({_canon(n)[1] for n in names}):
+        val, dims, off, tex, pref = T.rows[sym]
+        if sym in EM_FIXED or off or val <= 0 or any(Fraction(e).denominator != 1 for e in dimvec(dims).values()):
+            continue
+        out.append(sym)
+    return out
+
+
+def resized(ctx, s, default):
+    """the new size of a row is the default size itself or clearly another one (more than 2e-3 away, relative). Inside the thin
+    band left out, a defect that mixes up the two sizes is smaller than the 1e-6 rounding band of the obligations anyway. The
+    replay checks the model against a band half as wide, so that a model on the edge (z3 likes edges) still replays."""
+    r = 2e-3 if ctx.symbolic else 1e-3
+    ctx.assume(Or(exact_eq(s, default), s > default * (1 + r), s < default * (1 - r)))
+
+
+def make_registry_case(sysname, cfg):
+    """cfg: 'edit'           fresh registry of the system, rows resized with modify(), then constants built
+            'edit-after-use' constants built first (every conversion into the system done once), then the rows resized, then built again"""
+    def h(ctx):
+        reg = ctx.mods["UR"].UnitRegistry(unit_system=sysname)
+        T = tables()
+        if cfg == "edit-after-use":
+            ns0, V0 = build_constants(ctx, reg)
+            if ns0 is None:
+                return
+        Sc = {}
+        for sym in edit_symbols(ctx.mods, sysname):
+            s = ctx.real("s:" + sym, pos=True)
+            resized(ctx, s, T.rows[sym][0])
+            r = call(reg.modify, sym, s if ctx.symbolic else float(s))
+            if r[0] == "raise":
+                ctx.require("modify runs", False, symbol=sym, exc=type(r[1]).__name__)
+                return
+            Sc[sym] = s
+        ns, V = build_constants(ctx, reg)
+        if ns is None:
+            return
+        check_namespace(ctx, ns, V, reg, sysname == "cgs", scale_of_unit=lambda u: own_scale(u, lambda sym: Sc.get(sym, T.rows[sym][0])),
+                        observe=False)
+        # the sizes the registry reports for the resized rows are the new ones (the oracle above does not read them)
+        unyt = ctx.mods["unyt"]
+        for sym, s in Sc.items():
+            ctx.require("resized row reads back", close(unyt.Unit(sym, registry=reg).base_value, s), symbol=sym)
+    return Case(f"C15/registry/{sysname}/{cfg}", h, bounds="39 symbolic values x symbolic sizes of the rows the system and the table are written in",
+                budget_s=900, weight=8, max_paths=64)
+
+
+USER_NAMES = ["xl", "xm", "xt", "xtemp", "xen"]
+
+
+def make_user_system_case(variant):
+    """a unit system the user defines on rows of his own (symbolic sizes), made the registry's system
+       U1: length/mass/time only (temperature K, current A by default); U2: own temperature unit, own energy unit, no MKS current (a Gaussian system)"""
     def h(ctx):
         unyt = ctx.mods["unyt"]
         US = ctx.mods["US"]
+        D = unyt.dimensions
+        rows = [dict(name="xl", dims=D.length, scale=ctx.real("s:xl", pos=True)), dict(name="xm", dims=D.mass, scale=ctx.real("s:xm", pos=True)),
+                dict(name="xt", dims=D.time, scale=ctx.real("s:xt", pos=True))]
+        if variant == "U2":
+            rows += [dict(name="xtemp", dims=D.temperature, scale=ctx.real("s:xtemp", pos=True)),
+                     dict(name="xen", dims=D.energy, scale=ctx.real("s:xen", pos=True))]
+        reg = ctx.registry(rows)
+        sname = "xsys_c15_" + variant
+        try:
+            if variant == "U1":
+                S = US.UnitSystem(sname, "xl", "xm", "xt", registry=reg)
+            else:
+                S = US.UnitSystem(sname, "xl", "xm", "xt", temperature_unit="xtemp", current_mks_unit=None, registry=reg)
+                S["energy"] = "xen"
+            reg.unit_system = S
+            ns, V = build_constants(ctx, reg)
+            if ns is None:
+                return
+            # a system without an MKS current is a Gaussian one: charges take the documented C -> statC route, as in CGS
+            check_namespace(ctx, ns, V, reg, variant == "U2", observe=False)
+            if variant == "U2":
+                # ... and the SI-only electromagnetic constants stay as tabulated
+                for nm in ("mu_0", "eps_0"):
+                    ctx.require(f"{nm}/stays SI without an MKS current", nm in ns and str(ns[nm].units) == str(ns[nm + "_mks"].units), got=str(ns.get(nm).units) if nm in ns else None)
+        finally:
+            US.unit_system_registry.pop(sname, None)
+    return Case(f"C15/registry/user/{variant}", h, bounds="39 symbolic values x symbolic sizes of the user's base units", budget_s=900, weight=8, max_paths=64)
+
+
+# ------------------------------------------------------------------------------------------------ in-place histories
+# One constant is ~8 objects (every spelling x {X, X_mks, X_cgs}). A unit conversion IN PLACE keeps the quantity of the object
+# it is applied to and must leave every other object alone: after it, all spellings and guises still denote v [table unit].
+
+INPLACE_OPS = ["to_mks", "to_cgs", "to_base", "to_units", "to_scaled"]
+#   to_units: into the unit another guise of the constant is written in (X -> table unit, X_mks -> unit of X_cgs, X_cgs -> unit of X)
+#   to_scaled: into 1000 x the unit the object is in at that moment (never a factor of one, whatever the system)
+GAUSSIAN_CHARGE = {"(mass)": Fraction(1, 2), "(length)": Fraction(3, 2), "(time)": Fraction(-1)}
+STATC_SI = 1e-9 ** 0.5     # statC in kg**(1/2) m**(3/2) / s (g**(1/2) cm**(3/2) / s)
+_DV = {}
+
+
+def _dimvec(dims):
+    k = str(dims)
+    if k not in _DV:
+        _DV[k] = dimvec(dims)
+    return _DV[k]
+
+
+def denotes(q, v, E, tdim, em):
+    """q is the row's quantity: SI magnitude E in the row's dimensions, or (charge rows) the Gaussian reading v * 0.1 c statC"""
+    if _dimvec(q.units.dimensions) == tdim:
+        return close(si_of(q), E)
+    if em and _dimvec(q.units.dimensions) == GAUSSIAN_CHARGE:
+        return close(si_of(q), v * (EM_CHARGE_FACTOR * STATC_SI))
+    return False
+
+
+def make_inplace_case(sysname, op):
+    def h(ctx):
+        unyt = ctx.mods["unyt"]
+        NR = unyt.exceptions.UnitsNotReducible
         from unyt._unit_lookup_table import physical_constants as table
         reg = ctx.mods["UR"].UnitRegistry(unit_system=sysname)
-        V = {}
-        sym_table = OrderedDict()
-        for name, (v0, unit, aliases) in table.items():
-            V[name] = ctx.real("v:" + name)
-            sym_table[name] = (V[name], unit, aliases)
-        ns = {}
-        saved = US.physical_constants
-        US.physical_constants = sym_table
-        try:
-            r = call(US.add_constants, ns, reg)
-        finally:
-            US.physical_constants = saved
-        if r[0] == "raise":
-            ctx.require("add_constants runs", False, exc=type(r[1]).__name__, msg=str(r[1])[:200])
+        ns, V = build_constants(ctx, reg)
+        if ns is None:
             return
         for name, (v0, unit, aliases) in table.items():
             v = V[name]
             tu = unyt.Unit(unit, registry=reg)
+            tdim = dimvec(tu.dimensions)
             E = oracle_var(ctx, "si:" + name, v * tu.base_value)
             em = str(tu.expr) == "C"
-            for nm in [name] + list(aliases):
-                role = "name" if nm == name else "alias"
-                # X_mks: the table value in the table unit
-                q = ns.get(nm + "_mks")
-                ok = q is not None and And(close(payload(q)[0], v, tol=0), str(q.units) == str(tu), close(si_of(q), E))
-                ctx.require(f"{name}/{role}/_mks", ok, key=nm + "_mks", got=str(q.units) if q is not None else None)
-                # X_cgs
-                q = ns.get(nm + "_cgs")
-                if name in IRREDUCIBLE_IN_CGS:
-                    ctx.require(f"{name}/{role}/_cgs", q is None, key=nm + "_cgs", why="documented as not representable in CGS")
-                elif q is None:
-                    ctx.require(f"{name}/{role}/_cgs", False, key=nm + "_cgs", why="missing")
-                elif em:
-                    ctx.require(f"{name}/{role}/_cgs", And(close(payload(q)[0], v * EM_CHARGE_FACTOR), str(q.units) == "statC"), key=nm + "_cgs", got=str(q.units))
+            has_current = "(current_mks)" in tdim
+            entries = [(nm, g) for nm in [name] + list(aliases) for g in GUISES if nm + g in ns]
+            if name == "h":
+                entries += [(k, "") for k in ("hmks", "hcgs") if k in ns]       # the two legacy spellings
+            unit_of = {g: str(ns[name + g].units) for g in GUISES if name + g in ns}   # read before anything is converted
+            target = {"": unit, "_mks": unit_of.get("_cgs", unit_of.get("", unit)), "_cgs": unit_of.get("", unit)}
+            memo = {}
+            for nm, g in entries:
+                q = ns[nm + g]
+                if op == "to_mks":
+                    r = call(q.convert_to_mks)
+                elif op == "to_cgs":
+                    r = call(q.convert_to_cgs)
+                elif op == "to_base":
+                    r = call(q.convert_to_base)
+                elif op == "to_units":
+                    r = call(q.convert_to_units, target.get(g, unit))
                 else:
-                    ctx.require(f"{name}/{role}/_cgs", And(close(si_of(q), E), dimvec(q.units.dimensions) == dimvec(tu.dimensions)), key=nm + "_cgs", got=str(q.units))
-                # X in this registry's unit system
-                q = ns.get(nm)
-                if q is None:
-                    ctx.require(f"{name}/{role}/base", False, key=nm, why="missing")
-                elif em and sysname == "cgs":
-                    ctx.require(f"{name}/{role}/base", And(close(payload(q)[0], v * EM_CHARGE_FACTOR), str(q.units) == "statC"), key=nm, got=str(q.units))
-                else:
-                    ctx.require(f"{name}/{role}/base", And(close(si_of(q), E), dimvec(q.units.dimensions) == dimvec(tu.dimensions)), key=nm, got=str(q.units))
-                    ctx.observe(f"{nm}", payload(q)[0])
-        for old, new in (("hmks", "h_mks"), ("hcgs", "h_cgs")):
-            a, b = ns.get(old), ns.get(new)
-            ctx.require(f"h/legacy/{old}", a is not None and b is not None and And(close(payload(a)[0], payload(b)[0], tol=0), str(a.units) == str(b.units)))
-        expected_keys = set()
-        for name, (v0, unit, aliases) in table.items():
-            for nm in [name] + list(aliases):
-                expected_keys |= {nm, nm + "_mks"} | (set() if name in IRREDUCIBLE_IN_CGS else {nm + "_cgs"})
-        ctx.require("namespace has exactly the documented names", set(ns) == expected_keys | {"hmks", "hcgs"}, extra=sorted(set(ns) ^ (expected_keys | {"hmks", "hcgs"}))[:8])
-    return Case(f"C15/system/{sysname}", h, bounds="39 symbolic values, all names x 3 suffixes", budget_s=600, weight=5, max_paths=16)
+                    r = call(q.convert_to_units, unyt.Unit(f"1000*({q.units})", registry=reg))
+                role = ("name" if nm == name else "alias") + g
+                if r[0] == "raise":
+                    # only a constant with an MKS current in it may refuse the way to CGS (no Gaussian form of A*s, N/A**2 ...)
+                    legit = isinstance(r[1], NR) and has_current and (op == "to_cgs" or (op == "to_base" and sysname == "cgs"))
+                    ctx.require(f"{name}/{op}/{role}/runs", legit, key=nm + g, exc=type(r[1]).__name__, msg=str(r[1])[:120])
+                conds = []
+                for n2, g2 in entries:
+                    q2 = ns[n2 + g2]
+                    x2 = payload(q2)[0]
+                    k = (id(x2), str(q2.units))      # same stored number object under the same unit: the same formula as before
+                    if k not in memo:
+                        memo[k] = (x2, denotes(q2, v, E, tdim, em))
+                    conds.append(memo[k][1])
+                info = {}
+                if not ctx.symbolic:
+                    info["changed"] = [n2 + g2 for (n2, g2), c in zip(entries, conds) if not bool(c)][:8]
+                ctx.require(f"{name}/{op}/{role}", And(*conds), key=nm + g, **info)
+        no_shared_buffers(ctx, ns, "every name has a buffer of its own")
+    return Case(f"C15/inplace/{sysname}/{op}", h, bounds="39 symbolic values; every name x guise converted in place in turn, all names x guises of the row read after each",
+                budget_s=900, weight=8, max_paths=16)
 
 
 # ------------------------------------------------------------------------------------------------ ground parts
@@ -162,6 +441,7 @@ def make_default_case():
                 ctx.require(f"default/{name}/{'name' if nm == name else 'alias'}", ok, key=nm)
                 top = vars(unyt).get(nm)
                 ctx.require(f"top-level/{name}/{'name' if nm == name else 'alias'}", top is qd, key=nm, got=type(top).__name__)
+        no_shared_buffers(ctx, pcm, "default/every name has a buffer of its own")
     return Case("C15/ground/default-namespace", h, bounds="39 constants x names (ground)")
 
 
@@ -196,7 +476,11 @@ def make_both_case(mods):
 
 
 def cases(tier, mods):
+    check_names(mods, USER_NAMES)
     out = [make_system_case(s) for s in SYSTEMS]
+    out += [make_registry_case(s, cfg) for s in SYSTEMS for cfg in ("edit", "edit-after-use")]
+    out += [make_user_system_case(v) for v in ("U1", "U2")]
+    out += [make_inplace_case(s, op) for s in SYSTEMS for op in INPLACE_OPS]
     out += [make_relations_case(), make_default_case(), make_both_case(mods)]
     return out
 
